@@ -21,13 +21,15 @@ import (
 // Functions called inside one expression never emit, so the evaluation order
 // of unsequenced operands is not observed.
 func f8(th bool) []Fam {
-	nb, nu := 2, 1
+	// thorough: leaves {local, constant}, unary nodes {id(e), tt[e]};
+	// quick: one leaf kind (local / constant alternate by position), id(e) only
+	nb, nu, nl := 2, 1, 1
 	if th {
-		nu = 2
+		nu, nl = 2, 2
 	}
-	T := []uint64{2, 0, 0, 0}
+	T := []uint64{uint64(nl), 0, 0, 0}
 	for d := 1; d <= 3; d++ {
-		T[d] = 2 + uint64(nb)*T[d-1]*T[d-1] + uint64(nu)*T[d-1]
+		T[d] = uint64(nl) + uint64(nb)*T[d-1]*T[d-1] + uint64(nu)*T[d-1]
 	}
 	return []Fam{
 		{
@@ -37,7 +39,7 @@ func f8(th bool) []Fam {
 				b := newG()
 				leaf := 0
 				digits := fmt.Sprint(i)
-				e := f8Tree(b, T, 3, i, nb, &leaf)
+				e := f8Tree(b, T, 3, i, nb, nl, &leaf)
 				return f8Wrap(b, e, "tree="+digits)
 			},
 		},
@@ -110,21 +112,25 @@ func f8Wrap(b g, e prog.Expr, key string) *prog.Prog {
 }
 
 // f8Tree unranks tree number i among the trees of depth <= d.
-func f8Tree(b g, T []uint64, d int, i uint64, nb int, leaf *int) prog.Expr {
-	if i < 2 || d == 0 {
+func f8Tree(b g, T []uint64, d int, i uint64, nb, nl int, leaf *int) prog.Expr {
+	if i < uint64(nl) || d == 0 {
 		*leaf++
-		if i%2 == 0 {
+		kind := i
+		if nl == 1 {
+			kind = uint64(*leaf) % 2
+		}
+		if kind == 0 {
 			return b.n(fmt.Sprintf("x%d", (*leaf-1)%9+1))
 		}
 		return b.i(10 * *leaf)
 	}
-	i -= 2
+	i -= uint64(nl)
 	t := T[d-1]
 	if i < uint64(nb)*t*t {
 		op := i / (t * t)
 		rest := i % (t * t)
-		l := f8Tree(b, T, d-1, rest/t, nb, leaf)
-		r := f8Tree(b, T, d-1, rest%t, nb, leaf)
+		l := f8Tree(b, T, d-1, rest/t, nb, nl, leaf)
+		r := f8Tree(b, T, d-1, rest%t, nb, nl, leaf)
 		if op == 0 {
 			return b.Bin("+", l, r)
 		}
@@ -132,7 +138,7 @@ func f8Tree(b g, T []uint64, d int, i uint64, nb int, leaf *int) prog.Expr {
 	}
 	i -= uint64(nb) * t * t
 	u := i / t
-	c := f8Tree(b, T, d-1, i%t, nb, leaf)
+	c := f8Tree(b, T, d-1, i%t, nb, nl, leaf)
 	if u == 0 {
 		return b.CallN("id", c)
 	}
